@@ -321,6 +321,12 @@ func (iter *inIndexIterator) Next() (indexIterResult, error) {
 }
 
 func (iter *inIndexIterator) Close() error {
+	// When the consumer stops before the values are exhausted (limit, grouping, error) the iterator
+	// of the current value is still open and must be closed with the transaction still alive.
+	if iter.hasIterator && iter.indexIterator != nil {
+		iter.hasIterator = false
+		return iter.indexIterator.Close()
+	}
 	return nil
 }
 
